@@ -96,7 +96,9 @@ class Ctx:
             shutil.rmtree(self.build)
         os.makedirs(os.path.join(self.build, "gen"))
         os.makedirs(os.path.join(self.build, "cases"))
-        self.replays = os.path.join(VERIF, "evidence", "replays")
+        # self-tests against a scratch copy of the repository must not overwrite the real evidence
+        self.evidence_dir = os.path.join(VERIF, "evidence") if REPO == "/repo" else os.path.join(self.build, "evidence")
+        self.replays = os.path.join(self.evidence_dir, "replays")
         os.makedirs(self.replays, exist_ok=True)
         self.obligations = 0
         self.discharged = 0
@@ -376,8 +378,8 @@ def finish(ctx: Ctx):
         "coverage": cov, "assumptions": ctx.assumptions, "wall_s": round(time.time() - ctx.t0, 2),
         "violations": nviol,
     }
-    os.makedirs(os.path.join(VERIF, "evidence"), exist_ok=True)
-    with open(os.path.join(VERIF, "evidence", ctx.pid + ".json"), "w") as f:
+    os.makedirs(ctx.evidence_dir, exist_ok=True)
+    with open(os.path.join(ctx.evidence_dir, ctx.pid + ".json"), "w") as f:
         json.dump(ev, f, indent=1, default=str)
     for l in lines:
         print(l, flush=True)
